@@ -443,8 +443,10 @@ pub fn adss_sizes(a: &Args) -> Report {
     let n = *t as usize + 2;
     let ctx = json!({"threshold": t, "message_len": lm, "coins_len": lr});
     let mut shares: Vec<adss::Share> = Vec::new();
-    for _ in 0..n {
-      match guard(|| Commune::new(*t, msg.clone(), coins.clone(), None).share()) {
+    // alternately from fresh Commune objects and from clones of ONE Commune object
+    let one = Commune::new(*t, msg.clone(), coins.clone(), None);
+    for k in 0..n {
+      match guard(|| if k % 2 == 0 { Commune::new(*t, msg.clone(), coins.clone(), None).share() } else { one.clone().share() }) {
         Guard::Done(Ok(s)) => shares.push(s),
         _ => {
           rep.violation("C16", "Commune::share", "share-failed", "share() failed".into(), ctx.clone());
